@@ -231,6 +231,19 @@ func c10Census(c *core.Ctx) (sources []unorderedSource, unorderedFns map[*ssa.Fu
 			} else if cal := core.Callee(call.Common()); cal != nil {
 				callee = cal.Name()
 			}
+			if it := iteratorHelper(fn, call); it {
+				// a visitor: the function only hands each element to its callback; its call sites are the use sites
+				n := 0
+				for _, caller := range c.Callers(core.TopLevel(fn)) {
+					for _, cs := range core.CallsMatching(caller, func(com *ssa.CallCommon) bool { return core.IsCallTo(com, core.TopLevel(fn)) }) {
+						sources = append(sources, unorderedSource{key: "use@" + roleName(c, caller) + "←" + callee, kind: "use", fn: caller, in: cs})
+						n++
+					}
+				}
+				if n > 0 {
+					continue
+				}
+			}
 			sources = append(sources, unorderedSource{key: "use@" + roleName(c, fn) + "←" + callee, kind: "use", fn: fn, in: call, val: call})
 		}
 	}
@@ -618,7 +631,7 @@ func c10(c *core.Ctx, r *core.Report) {
 		case s.kind == "syncrange" && ufns[core.TopLevel(s.fn)]:
 			r.Hold("C10.R1", cons, pos, "collector: the enclosing function returns the collected slice unordered; every use site of its result is classified below")
 		// ---- use sites
-		case strings.HasSuffix(s.key, "←GetAllProperties"):
+		case s.val != nil && strings.HasSuffix(s.key, "←GetAllProperties"):
 			okUse := true
 			for _, rf := range *s.val.Referrers() {
 				if call, isCall := rf.(*ssa.Call); isCall && core.IsInvoke(call.Common(), ro.IAProps) {
@@ -636,7 +649,7 @@ func c10(c *core.Ctx, r *core.Report) {
 			r.Hold("C10.R1", cons, pos, "SORTED: the creation order of refresh is independent of the enumeration order (refresh table, C10.R2)")
 		case s.key == "use@Factory.GetComponents←GetMetas":
 			r.Hold("C10.R1", cons, pos, "TIE-ONLY: the public multi-lookup returns matches in unspecified order; each element is resolved by name")
-		case s.key == "use@InstantiationAwareComponentPostProcessor.PostProcessProperties←GetMetas":
+		case s.val != nil && s.key == "use@InstantiationAwareComponentPostProcessor.PostProcessProperties←GetMetas":
 			// SETLIKE: candidates only extend Injects; narrowing is permutation invariant
 			okApp := true
 			for _, rf := range *s.val.Referrers() {
@@ -654,7 +667,7 @@ func c10(c *core.Ctx, r *core.Report) {
 			r.Check(okApp && permOK, "C10.R1", cons, pos, "SETLIKE: candidates only extend Property.Injects, and the narrowing of candidate lists is permutation-invariant and self-free (C08.R3/R4) "+permWhy)
 		case s.key == "use@Factory.PrepareComponents←GetSingletonNames":
 			c10Registration(c, r, s, cons, ps)
-		case strings.HasSuffix(s.key, "←GetSingletonNames") && onlyLenUses(s.val):
+		case s.val != nil && s.kind == "use" && onlyLenUses(s.val):
 			r.Hold("C10.R1", cons, pos, "SETLIKE: only the length is used")
 		case s.kind == "use" && s.val != nil && isErrorSlice(s.val.Type()) && diagnosticOnly(c, s.val, 0):
 			r.Hold("C10.R1", cons, pos, "DIAGNOSTIC: the errors come back in no particular order, and are only tested for presence and put into an error text")
@@ -713,16 +726,40 @@ func c10Registration(c *core.Ctx, r *core.Report, s unorderedSource, cons string
 	// the loop over names: what is order-sensitive in its body?
 	var rl *core.RangeLoop
 	for _, l := range core.RangeLoops(fn) {
-		if core.Norm(l.Slice) == s.val {
+		if s.val != nil && core.Norm(l.Slice) == s.val {
 			rl = l
 		}
 	}
-	if rl == nil {
-		r.Undecided("C10.R1", cons, pos, "the names are not consumed by a forward range")
-		return
-	}
 	bad := ""
-	for b := range rl.Loop.Blocks {
+	var loopBlocks map[*ssa.BasicBlock]bool
+	if rl == nil {
+		// the names travel through a run-context object or a visitor: what the enumeration order can change is
+		// decided by the preparation table on every enumeration order (the delegate's registration list goes through
+		// the ordering helper: bootstrap table, C12)
+		sub := core.NewReport("C10", c.Tier, 0)
+		prepareRules(c, sub, func(row string) string {
+			if row == "order-free" || row == "classified" {
+				return "C10.R1"
+			}
+			return ""
+		})
+		for _, o := range sub.Obls {
+			if o.Verdict == core.Undecided {
+				r.Undecided("C10.R1", cons, pos, "the names are not consumed by a forward range in the function that asks for them, and the preparation table is undecided: "+o.Detail)
+				return
+			}
+			if o.Verdict != core.Held {
+				bad = "the preparation table is violated: " + o.Detail
+			}
+		}
+		if _, why := findBootstrap(c); why != "" {
+			r.Undecided("C10.R1", cons, pos, "the registration list is not known to go through the ordering helper: "+why)
+			return
+		}
+	} else {
+		loopBlocks = rl.Loop.Blocks
+	}
+	for b := range loopBlocks {
 		for _, in := range b.Instrs {
 			switch x := in.(type) {
 			case *ssa.MapUpdate:
@@ -1155,4 +1192,62 @@ func sameCellLoad(a, b ssa.Value, after ssa.Instruction) bool {
 func isErrorSlice(t types.Type) bool {
 	sl, ok := t.Underlying().(*types.Slice)
 	return ok && isErrorType(sl.Elem())
+}
+
+// iteratorHelper: fn uses the sequence only as the operand of a forward range whose body hands the element to a
+// function-typed parameter of fn (and looks at what that returns).
+func iteratorHelper(fn *ssa.Function, call *ssa.Call) bool {
+	if fn.Parent() != nil {
+		return false
+	}
+	var rl *core.RangeLoop
+	for _, l := range core.RangeLoops(fn) {
+		if core.Norm(l.Slice) == ssa.Value(call) {
+			if rl != nil {
+				return false
+			}
+			rl = l
+		}
+	}
+	if rl == nil {
+		return false
+	}
+	for _, rf := range *call.Referrers() {
+		switch x := rf.(type) {
+		case *ssa.DebugRef:
+		case *ssa.Call:
+			if bi, isB := x.Common().Value.(*ssa.Builtin); !isB || bi.Name() != "len" {
+				return false
+			}
+		case *ssa.IndexAddr, *ssa.Index, *ssa.Range:
+		default:
+			return false
+		}
+	}
+	handed := false
+	for b := range rl.Loop.Blocks {
+		for _, in := range b.Instrs {
+			switch x := in.(type) {
+			case ssa.CallInstruction:
+				com := x.Common()
+				if p, isParam := com.Value.(*ssa.Parameter); isParam && !com.IsInvoke() {
+					if _, isSig := p.Type().Underlying().(*types.Signature); isSig {
+						for _, a := range com.Args {
+							if rl.ElemOf(a) {
+								handed = true
+							}
+						}
+						continue
+					}
+				}
+				if _, isB := com.Value.(*ssa.Builtin); isB || core.IsLogCall(com) {
+					continue
+				}
+				return false
+			case *ssa.Store, *ssa.MapUpdate, *ssa.Send, *ssa.Go, *ssa.Defer:
+				return false
+			}
+		}
+	}
+	return handed
 }
